@@ -22,7 +22,8 @@ def run():
     # 2. teeth: each deviation of Driver.tla breaks the invariants that state the property it names
     expect = {"SaveOnePerIter": "InvC07_times", "NoPreSave": "InvC07_times", "GearDoubleAdd": "InvC07_advance",
               "SideStepWritesHidden": "InvC08_pure", "HiddenSurvivesSolve": "InvC08_fresh", "StaleItTag": "InvC08_split",
-              "StaleCfl": "InvC08_pure", "StickyDirective": "InvC08_pure"}
+              "StaleCfl": "InvC08_pure", "StickyDirective": "InvC08_pure",
+              "ZeroTottimeIgnored": "InvC07_nit"}
     for dev, inv in expect.items():
         cfg = "MC_Driver_dev_%s.cfg" % dev
         if not os.path.exists(os.path.join(core.SPEC, cfg)):
